@@ -40,8 +40,7 @@ pub fn spec() -> HistSpec {
         excluder,
         fixed_cases,
         label_floors: vec![("wrongtype-hit", 100), ("boundary-index", 50), ("set-options", 100), ("overflow", 10)],
-        pre_phase: None,
-        pre_replay: None,
         assumptions: vec!["reference model written from the Redis command documentation (DESIGN.md Appendix B)", "error replies compare equal regardless of wording; status and bulk strings with equal bytes compare equal"],
+        ..Default::default()
     }
 }
